@@ -1869,12 +1869,17 @@ func BaselineKeys(p *Prog) []string {
 		}
 	}
 	// functions of the shell framework ("sh:<name>")
+	shAll := map[string]*ShCmd{}
 	for _, rel := range ShellFiles {
 		if f, err := ParseShell(p, rel); err == nil {
-			for name := range f.Funcs {
-				out = append(out, "sh:"+name)
+			for name, fn := range f.Funcs {
+				shAll[name] = fn
 			}
 		}
+	}
+	for name, fn := range shAll {
+		out = append(out, "sh:"+name)
+		out = append(out, "shsig\t"+name+"\t"+strings.Join(ShFingerprint(fn, shAll), ","))
 	}
 	sort.Strings(out)
 	return out
@@ -2280,4 +2285,22 @@ func explodeStructParams(p *Prog, pk *packages.Package, baseline map[string]bool
 		}
 	}
 	return out, done
+}
+
+// ShFingerprint is the sorted multiset of the external command names a shell function runs (calls of other
+// functions of the same file set are left out: they may be renamed together with it).
+func ShFingerprint(fn *ShCmd, funcs map[string]*ShCmd) []string {
+	var out []string
+	if fn == nil || fn.Func == nil {
+		return out
+	}
+	ShWalk(&ShList{Items: []*ShAndOr{{Pipes: []*ShPipe{{Cmds: []*ShCmd{fn.Func}}}}}}, "", func(x *ShCmd, _ string) {
+		if n := x.CmdName(); n != "" && funcs[n] == nil {
+			out = append(out, n)
+		} else if x.Kind != "simple" {
+			out = append(out, "<"+x.Kind+">")
+		}
+	})
+	sort.Strings(out)
+	return out
 }
